@@ -1684,14 +1684,20 @@ func resolveIndex(v, index reflect.Value, indexAsStr string) (reflect.Value, err
 		}
 
 		if id, ok := cache[key]; ok {
-			field := v.FieldByIndex(id)
+			field, err := fieldByIndex(v, id)
+			if err != nil {
+				return reflect.Value{}, fmt.Errorf("evaluating %s.%s: %v", v.Type(), indexAsStr, err)
+			}
 			return indirectEface(field), nil
 		}
 
 		// Slow path: use reflect directly
 		tField, ok := typ.FieldByName(key)
 		if ok {
-			field := v.FieldByIndex(tField.Index)
+			field, err := fieldByIndex(v, tField.Index)
+			if err != nil {
+				return reflect.Value{}, fmt.Errorf("evaluating %s.%s: %v", v.Type(), indexAsStr, err)
+			}
 			if tField.PkgPath != "" { // field is unexported
 				return reflect.Value{}, fmt.Errorf("%s is an unexported field of struct type %s", indexAsStr, v.Type())
 			}
@@ -1720,6 +1726,21 @@ func resolveIndex(v, index reflect.Value, indexAsStr string) (reflect.Value, err
 		}
 	}
 	return reflect.Value{}, fmt.Errorf("can't evaluate index %s (%s) in type %s", index, indexAsStr, getTypeString(v))
+}
+
+// fieldByIndex is reflect.Value.FieldByIndex, except that stepping through a nil pointer
+// to an embedded struct is reported as an error instead of a panic.
+func fieldByIndex(v reflect.Value, index []int) (reflect.Value, error) {
+	for i, x := range index {
+		if i > 0 && v.Kind() == reflect.Ptr && v.Type().Elem().Kind() == reflect.Struct {
+			if v.IsNil() {
+				return reflect.Value{}, fmt.Errorf("nil pointer to embedded struct %s", v.Type().Elem())
+			}
+			v = v.Elem()
+		}
+		v = v.Field(x)
+	}
+	return v, nil
 }
 
 // from Go's text/template's funcs.go:
